@@ -105,6 +105,7 @@ def run(ctx, prop):
     hist = {"cases": 0, "perturbed_calls": 0, "served": 0, "refused": 0, "invalid": 0, "followups_ok": 0, "by_skel": {}}
     distinct = set()
     cases = [("witness", w) for w in F.witness_cases(prop)]
+    cases.append(("gen", gen.coverage_case("C04-coverage")))
     for i in range(n):
         cases.append(("gen", fix_for_cpp(gen.gen_case(ctx.rng, bench_opts(ctx.rng), cid=f"C04-{ctx.seed}-{i}"))))
     for origin, case in cases:
